@@ -192,6 +192,12 @@ let rec skipn n0 l =
              | [] -> []
              | _ :: l0 -> skipn n1 l0)
 
+(** val repeat : 'a1 -> nat -> 'a1 list **)
+
+let rec repeat x = function
+| O -> []
+| S k -> x :: (repeat x k)
+
 type positive =
 | XI of positive
 | XO of positive
@@ -4142,3 +4148,167 @@ let sign_doc chain entropy memo fee msg0 =
 
 let sign_bytes chain entropy memo fee msg0 =
   sort_json (sign_doc chain entropy memo fee msg0)
+
+(** val udigits : nat -> z -> bytes **)
+
+let rec udigits fuel z0 =
+  match fuel with
+  | O ->
+    (Z.to_N
+      (Z.add (Zpos (XO (XO (XO (XO (XI XH))))))
+        (Z.modulo z0 (Zpos (XO (XI (XO XH))))))) :: []
+  | S f ->
+    if Z.ltb z0 (Zpos (XO (XI (XO XH))))
+    then (Z.to_N (Z.add (Zpos (XO (XO (XO (XO (XI XH)))))) z0)) :: []
+    else app (udigits f (Z.div z0 (Zpos (XO (XI (XO XH))))))
+           ((Z.to_N
+              (Z.add (Zpos (XO (XO (XO (XO (XI XH))))))
+                (Z.modulo z0 (Zpos (XO (XI (XO XH))))))) :: [])
+
+(** val big_text : z -> bytes **)
+
+let big_text z0 =
+  udigits (Z.to_nat (Z.log2 z0)) z0
+
+(** val zeros : nat -> bytes **)
+
+let zeros n0 =
+  repeat (Npos (XO (XO (XO (XO (XI XH)))))) n0
+
+(** val dec_to_text : z -> bytes **)
+
+let dec_to_text z0 =
+  let ds = big_text (Z.abs z0) in
+  let n0 = length ds in
+  let body =
+    if Nat.leb n0 (S (S (S (S (S (S (S (S (S (S (S (S (S (S (S (S (S (S
+         O))))))))))))))))))
+    then app ((Npos (XO (XO (XO (XO (XI XH)))))) :: ((Npos (XO (XI (XI (XI
+           (XO XH)))))) :: []))
+           (app
+             (zeros
+               (sub (S (S (S (S (S (S (S (S (S (S (S (S (S (S (S (S (S (S
+                 O)))))))))))))))))) n0)) ds)
+    else app
+           (firstn
+             (sub n0 (S (S (S (S (S (S (S (S (S (S (S (S (S (S (S (S (S (S
+               O))))))))))))))))))) ds)
+           (app ((Npos (XO (XI (XI (XI (XO XH)))))) :: [])
+             (skipn
+               (sub n0 (S (S (S (S (S (S (S (S (S (S (S (S (S (S (S (S (S (S
+                 O))))))))))))))))))) ds))
+  in
+  if Z.ltb z0 Z0 then (Npos (XI (XO (XI (XI (XO XH)))))) :: body else body
+
+(** val is_digit0 : n -> bool **)
+
+let is_digit0 b =
+  (&&) (N.leb (Npos (XO (XO (XO (XO (XI XH)))))) b)
+    (N.leb b (Npos (XI (XO (XO (XI (XI XH)))))))
+
+(** val dvalue : z -> bytes -> z option **)
+
+let rec dvalue acc = function
+| [] -> Some acc
+| b :: r ->
+  if is_digit0 b
+  then dvalue
+         (Z.add (Z.mul acc (Zpos (XO (XI (XO XH)))))
+           (Z.sub (Z.of_N b) (Zpos (XO (XO (XO (XO (XI XH)))))))) r
+  else None
+
+(** val split_dot : bytes -> bytes -> bytes list **)
+
+let rec split_dot cur = function
+| [] -> (rev cur) :: []
+| b :: r ->
+  if N.eqb b (Npos (XO (XI (XI (XI (XO XH))))))
+  then (rev cur) :: (split_dot [] r)
+  else split_dot (b :: cur) r
+
+(** val text_to_dec : bytes -> z option **)
+
+let text_to_dec s = match s with
+| [] -> None
+| b0 :: r0 ->
+  if N.eqb b0 (Npos (XI (XO (XI (XI (XO XH))))))
+  then let neg = true in
+       (match r0 with
+        | [] -> None
+        | _ :: _ ->
+          let combined =
+            match split_dot [] r0 with
+            | [] -> None
+            | i :: l ->
+              (match l with
+               | [] ->
+                 Some
+                   (app i
+                     (zeros (S (S (S (S (S (S (S (S (S (S (S (S (S (S (S (S
+                       (S (S O))))))))))))))))))))
+               | f :: l0 ->
+                 (match l0 with
+                  | [] ->
+                    if (||)
+                         ((||) (Nat.eqb (length f) O) (Nat.eqb (length i) O))
+                         (Nat.ltb (S (S (S (S (S (S (S (S (S (S (S (S (S (S
+                           (S (S (S (S O)))))))))))))))))) (length f))
+                    then None
+                    else Some
+                           (app i
+                             (app f
+                               (zeros
+                                 (sub (S (S (S (S (S (S (S (S (S (S (S (S (S
+                                   (S (S (S (S (S O))))))))))))))))))
+                                   (length f)))))
+                  | _ :: _ -> None))
+          in
+          (match combined with
+           | Some c ->
+             (match c with
+              | [] -> None
+              | _ :: _ ->
+                (match dvalue Z0 c with
+                 | Some v -> Some (if neg then Z.opp v else v)
+                 | None -> None))
+           | None -> None))
+  else let neg = false in
+       (match s with
+        | [] -> None
+        | _ :: _ ->
+          let combined =
+            match split_dot [] s with
+            | [] -> None
+            | i :: l ->
+              (match l with
+               | [] ->
+                 Some
+                   (app i
+                     (zeros (S (S (S (S (S (S (S (S (S (S (S (S (S (S (S (S
+                       (S (S O))))))))))))))))))))
+               | f :: l0 ->
+                 (match l0 with
+                  | [] ->
+                    if (||)
+                         ((||) (Nat.eqb (length f) O) (Nat.eqb (length i) O))
+                         (Nat.ltb (S (S (S (S (S (S (S (S (S (S (S (S (S (S
+                           (S (S (S (S O)))))))))))))))))) (length f))
+                    then None
+                    else Some
+                           (app i
+                             (app f
+                               (zeros
+                                 (sub (S (S (S (S (S (S (S (S (S (S (S (S (S
+                                   (S (S (S (S (S O))))))))))))))))))
+                                   (length f)))))
+                  | _ :: _ -> None))
+          in
+          (match combined with
+           | Some c ->
+             (match c with
+              | [] -> None
+              | _ :: _ ->
+                (match dvalue Z0 c with
+                 | Some v -> Some (if neg then Z.opp v else v)
+                 | None -> None))
+           | None -> None))
